@@ -16,8 +16,13 @@ def oracle_c13(seed, tier):
     return oracle_misc.check_c13(seed, tier)
 
 
+def corr_products(seed, tier):
+    import corr_product
+    return corr_product.check(seed, tier)
+
+
 def checks(tier):
-    return [corr_decoders, corr_summary, oracle_c13]
+    return [corr_decoders, corr_products, corr_summary, oracle_c13]
 
 
 def replay(payload):
